@@ -831,6 +831,10 @@ func (cx *Ctx) c13Aborts(r *Report, get func(Entry) *c13Walk) {
 					r.ok("abort-class", key, pos, "quotient "+s.name+" reachable from "+entryKey(cw.e)+": denominator guarded by "+g)
 					continue
 				}
+				if g := factDivGuard(cw.w, fr, s.ins, s.den); g != "" {
+					r.ok("abort-class", key, pos, "quotient "+s.name+" reachable from "+entryKey(cw.e)+": denominator guarded on this chain by "+g)
+					continue
+				}
 				if why := cx.reviewedDivisor(s); why != "" {
 					r.ok("abort-class", key, pos, "quotient "+s.name+" reachable from "+entryKey(cw.e)+": reviewed — "+why)
 					continue
@@ -2451,4 +2455,35 @@ func (cx *Ctx) initOnceValue(v ssa.Value) ssa.Value {
 		}
 	}
 	return cx.initOnce[g]
+}
+
+// factDivGuard: the denominator (or the value a zero-preserving conversion makes it from) is
+// known positive / non-zero by a fact that holds at the quotient on this call chain - a
+// guard made through a predicate function or in a caller.
+func factDivGuard(w *Walker, fr *Frame, ins ssa.Instruction, den ssa.Value) string {
+	t := w.ts.Of(den, fr)
+	cands := []string{t.LooseString()}
+	for d := 0; d < 3 && t != nil && t.Op == "call" && len(t.Args) == 1; d++ {
+		if !(strings.HasSuffix(t.Name, "NewDecFromInt") || strings.HasSuffix(t.Name, "ToLegacyDec") || strings.HasSuffix(t.Name, "NewDecFromBigInt") || strings.HasSuffix(t.Name, "NewIntFromBigInt") || strings.HasSuffix(t.Name, "Int.BigInt")) {
+			break
+		}
+		t = t.Args[0]
+		cands = append(cands, t.LooseString())
+	}
+	for _, ft := range w.FactsAt(fr, ins) {
+		if isOutcomeFact(ft.Text) {
+			continue
+		}
+		for _, c := range cands {
+			if c == "" || strings.HasPrefix(c, "new:") {
+				continue
+			}
+			switch {
+			case ft.Holds && strings.HasSuffix(ft.Text, ".IsPositive("+c+")"),
+				!ft.Holds && strings.HasSuffix(ft.Text, ".IsZero("+c+")"):
+				return ft.String()
+			}
+		}
+	}
+	return ""
 }
